@@ -1,5 +1,5 @@
 (* C20 — silent peers are dropped, live ones are kept and kept alive. *)
-From Rdest Require Import Base Consts Wire Manager Handler HandlerProofs.
+From Rdest Require Import Base Consts Wire Manager Handler HandlerProofs MgrProofs.
 Open Scope N_scope.
 
 (* a connection on which nothing but keep-alives (or nothing) arrives: the first two timer ticks (120 s, 240 s)
@@ -28,8 +28,16 @@ Theorem C20_emit : forall sha1 cf disk ovf s r, h_keep_alive s <> 2 ->
   hstep sha1 cf disk ovf s ETick r = HCont (set_ka s (h_keep_alive s + 1)) [ASend KeepAlive].
 Proof. exact tick_emits. Qed.
 
-(* the release of the peer state and reservation on termination is C12's kill_peer (Props/C12.v) *)
+(* termination (KillReq, manager side): the peer's state is forgotten and the piece it held, unless already complete,
+   is Missing again and so can be handed to someone else; no other piece's status moves *)
+Theorem C20_release : forall m a p m1, NoDup (map fst (m_peers m)) -> pget (m_peers m) a = Some p -> kill_peer m a = Ok m1 ->
+  pget (m_peers m1) a = None /\
+  (forall i, p_piece_index p = Some i -> nthN (m_status m) i <> Some Manager.Have -> nthN (m_status m1) i = Some Missing) /\
+  (forall j, p_piece_index p <> Some j -> nthN (m_status m1) j = nthN (m_status m) j).
+Proof. exact kill_releases. Qed.
+
 Print Assumptions C20_silent.
 Print Assumptions C20_live.
 Print Assumptions C20_only_timer_counts.
 Print Assumptions C20_emit.
+Print Assumptions C20_release.
